@@ -53,6 +53,10 @@ def cases(tier, seed):
             "ftarget_callable": bool(rng.random() < 0.4),
             "cb": gen.pick(rng, [None, "never", "never", 1, 2, 4]),
         }
+        if i % 13 == 12 and ps["family"] != "log_barrier":
+            # scale: dimensions and memories larger than the bulk of the cases
+            ps["n"] = int(rng.integers(25, 61))
+            cfg["maxcor"] = int(rng.integers(11, 31))
         if rng.random() < 0.2:
             cfg["scaler"] = float(np.exp(rng.uniform(np.log(1e-2), np.log(1e2))))
         if cfg["jac"] == "callable" and i % 4 == 1:
